@@ -41,6 +41,8 @@ THEOREMS = [
     'Nb.C15.iopSeq_spec_partial',
     'Nb.C15.orig_view_append_overwrites_parent',
     'Nb.C15.orig_iop_partial',
+    'Nb.C15.iopF_ok_iff',
+    'Nb.C15.iopSeq_step_ok_iff',
     'Nb.C15.step_len',
     'Nb.C15.tinv_step',
     'Nb.C15.tinv_run',
@@ -54,8 +56,12 @@ THEOREMS = [
 ASSUMPTIONS = [
     'hand-written Lean model of ArraySequence (Model/C15.lean): heap of row buffers (written prefix + '
     'capacity + dtype tag) and sequences = (buffer id, (offset,length) ranges, _is_view, buffer bytes); '
-    'tied to the code by the differential run of every generated history (contents of every live '
-    'sequence after every step)',
+    'Tractograms = (streamlines sequence, data_per_point key -> sequence in dict order, n_rows) over the same '
+    'heap; tied to the code by the differential run of every generated history (contents and dtype tag of every '
+    'live sequence, and which sequences each tractogram holds, after every step)',
+    'MEGABYTE and the default buffer_size are read from array_sequence.py, item sizes and the two tables of '
+    'in-place operations NumPy refuses (float scalar / wider-kind ArraySequence operand on integer data) from '
+    'the NumPy in use, on every run (Generated/C15Consts.lean)',
     'ndarray.resize(refcheck=True) succeeds in place exactly when no other live ArraySequence holds the '
     'ndarray (the harness keeps no ndarray alive between steps); np.empty/resize filler rows are never '
     'observed',
@@ -65,16 +71,25 @@ ASSUMPTIONS = [
     'tuple indices (seq[:, 0:2]), ArraySequence-valued operands of setitem, save/load and direct '
     'shrink_data() calls are outside the modelled operation list; operators with an ArraySequence '
     'operand are generated only with element-by-element equal row counts (or refused by _check_shape); '
-    'comparison results (bool data) are only read, sliced and copied afterwards',
-    'PROVED (unbounded): Inv after every history over ALL operations (inv_run); list refinement for every '
-    'operation that does not write through an existing array — new, append, extend list/generator/sequence, '
-    'ArraySequence(seq), copy, slice/list/mask/int getitem, seq op k, unary, seq op other, concatenate — '
-    '(refines_list_partial); growing a view in any way never alters its parent; exact characterisation of '
-    'int/slice setitem and of in-place arithmetic with a scalar or with an ArraySequence stored in another '
-    'buffer (all-or-none). PARTIAL: no single linked reference run that also carries the writes '
-    '(refines_list_partial); in-place arithmetic whose ArraySequence operand shares the buffer (aliasing) '
-    'or whose target selects an array twice has only Inv + frame (iopSeq_spec_partial) — both are covered '
-    'by correspondence + oracle',
+    'comparison results (bool data) are only read, sliced and copied afterwards; a sequence of another dtype '
+    'than the history\'s is only used as the right operand of an in-place operator; non in-place operators are '
+    'generated with operands of one dtype (result dtype promotion is not modelled)',
+    'Tractogram: data_per_streamline (plain ndarrays, re-allocated by np.concatenate) and Tractogram.copy() / '
+    '__add__ (deepcopy) are not modelled — the oracle-only `tractogram` stream covers them; streamlines and '
+    'per-point data of one history share one trailing shape; apply_affine is outside the operation list',
+    'PROVED (unbounded): Inv after every history over ALL operations (inv_run) and after every tractogram '
+    'history (tinv_run); list refinement for every operation that does not write through an existing array '
+    '(refines_list_partial); growing a view in any way never alters its parent; Tractogram(..), T[idx] and '
+    'T.data_per_point[k]=seq change no live sequence; T.extend(U) (also when it raises part-way) changes only '
+    'sequences T holds; growing a derived tractogram or an accumulator any number of times never alters any '
+    'sequence that existed before it was made; exact characterisation of int/slice setitem and of in-place '
+    'arithmetic with a scalar or with an ArraySequence stored in another buffer (all-or-none), and exactly '
+    'when NumPy refuses the operation (none). PARTIAL: no single linked reference run that also carries the '
+    'writes (refines_list_partial); in-place arithmetic whose ArraySequence operand shares the buffer '
+    '(aliasing) or whose target selects an array twice has only Inv + frame (iopSeq_spec_partial); the contents '
+    'a grown tractogram shows (old ++ donor, per key) and that tractograms made by the modelled operations '
+    'never hold a common sequence are not theorems (textend_preserves_donor takes the latter as a hypothesis) '
+    '— all covered by correspondence + oracle',
     'Basic/PySlice is the specification of Python slicing (validated by the C06 check)',
 ]
 RULE = ('histories over live sequences: exhaustive to depth 2 (full alphabet, 7 start states) and 3 (core '
@@ -83,10 +98,19 @@ RULE = ('histories over live sequences: exhaustive to depth 2 (full alphabet, 7 
         'multi-row elements, spare capacity or none, existing views and views of views; random histories '
         'to depth 25 over the full alphabet (append, cached '
         'append, extend list/generator/sequence, ArraySequence(seq), copy, slice/list/mask/int getitem, '
-        'int/slice setitem, += -= *= and + - * with a scalar, += -= *= and + - * < with another live '
-        'ArraySequence of matching element lengths (fresh, a copy, a view or the sequence itself; non-compact '
-        'views as left operands), -s / abs(s), concatenate) with common shapes (),(2,),(3,),(2,2) and '
-        'dtypes f8,i8,i4,i2,f4; Tractogram slice/extend stream (oracle only). A history is non-trivial '
+        'int/slice setitem, += -= *= and + - * with an int scalar, += -= *= with a FLOAT scalar (refused on '
+        'integer data), += -= *= and + - * < with another live '
+        'ArraySequence of matching element lengths (fresh — also of ANOTHER dtype for the in-place forms —, a '
+        'copy, a view or the sequence itself; non-compact views as left operands), -s / abs(s), concatenate) '
+        'with common shapes (),(2,),(3,),(2,2) and dtypes f8,i8,i4,i2,f4; views made with repeated indices '
+        'that cover exactly the parent buffer\'s rows, written through / grown (fancy-full); TRACTOGRAM '
+        'histories (model + oracle): Tractogram(seq | list | None, data_per_point from sequences or lists), '
+        'T[slice], T[list], T.extend(U) incl. U = T, accumulators growing several times, '
+        'T.data_per_point[k] = sequence | list, mismatched keys / row counts (ValueError, also part-way), '
+        'interleaved with sequence operations on the sequences the tractograms hold and on the donors: '
+        'exhaustive depth 2 + sampled depth 3 over a 12-operation alphabet from 2 start states (thorough: '
+        'exhaustive depth 3 + sampled depth 4), random to depth 20; Tractogram slice/extend/+/append stream '
+        'with data_per_streamline (oracle only). A history is non-trivial '
         'when it has a write or growth while at least two live sequences exist; distinct by its text.')
 
 PENDING_FINDINGS = [
